@@ -698,7 +698,19 @@ def _one_path(run, plan, timeout_ms, want_sample):
         import traceback, os
         tb = traceback.extract_tb(e.__traceback__)
         where = ' <- '.join('%s:%d' % (f.filename.split('/')[-1], f.lineno) for f in tb[-3:][::-1])
-        if type(e).__module__ != 'gdb' and (not tb or not os.path.realpath(tb[-1].filename).startswith(os.path.realpath(os.environ.get('VERIF_REPO', '/repo')) + os.sep)):
+        repo_root = os.path.realpath(os.environ.get('VERIF_REPO', '/repo')) + os.sep
+        verif_root = os.path.dirname(os.path.dirname(os.path.realpath(__file__))) + os.sep
+        # the innermost frame that belongs to the repository or to the harness decides who raised (library frames below it are skipped)
+        owner = None
+        for f in reversed(tb):
+            fn = os.path.realpath(f.filename)
+            if fn.startswith(repo_root):
+                owner = 'repo'
+                break
+            if fn.startswith(verif_root) and os.sep + 'fakegdb' + os.sep not in fn:
+                owner = 'harness'
+                break
+        if type(e).__module__ != 'gdb' and owner != 'repo':
             # raised by harness code itself (innermost frame outside the repository): a harness bug, never a verdict
             out['status'] = 'error'
             out['detail'] = 'harness exception %s: %s @ %s' % (type(e).__name__, e, where)
